@@ -1,6 +1,8 @@
 #![allow(dead_code)]
 mod dynafed;
 mod fmr;
+mod issuance;
+mod pools;
 mod sha256c;
 mod tok;
 mod util;
@@ -26,6 +28,8 @@ fn main() {
         ("fmr", "record") => fmr::record(rest, &mut out),
         ("dynafed", "params") => dynafed::replay_params(rest, &mut out),
         ("dynafed", "headers") => dynafed::replay_headers(rest, &mut out),
+        ("issuance", "replay") => issuance::replay(rest, &mut out),
+        ("issuance", "json") => issuance::json_contract(rest, &mut out),
         ("dynafed", "record") => dynafed::record(rest, &mut out),
         (m, c) => {
             eprintln!("unknown command {} {}", m, c);
